@@ -305,6 +305,21 @@ where
             },
         ),
     );
+    // the sequence number through bytes and text (C07: encoding and decoding preserve the number)
+    put(
+        "rtseq",
+        g(
+            || {
+                let mut out = Vec::new();
+                e.encode(&mut out);
+                let mut b: &[u8] = &out;
+                let a = Enr::<K>::decode(&mut b).map(|o| o.seq()).ok();
+                let t = e.to_base64().parse::<Enr<K>>().map(|o| o.seq()).ok();
+                (a, t)
+            },
+            |(a, t)| ((a == Some(e.seq()) && t == Some(e.seq())) as u8).to_string(),
+        ),
+    );
     put(
         "rtt",
         g(
